@@ -200,7 +200,7 @@ def main(argv=None):
         cn = r['case']['name']
         percase.setdefault(cn, [0, 0, r['case']]); percase[cn][0] += r['stats'].get('paths', 0) or 0; percase[cn][1] += r['stats'].get('pruned', 0) or 0
     for cn, (np_, npr, cc) in percase.items():
-        if np_ == 0 and not cc.get('may_be_empty') and not cc.get('optional'):
+        if np_ == 0 and not cc.get('may_be_empty') and not cc.get('optional') and not capped:
             problems.append('vacuity: case %s completed no path (pruned %s)' % (cn, npr))
     # harness-level vacuity / progress guards
     for g in getattr(H, 'GUARDS', []):
